@@ -37,3 +37,105 @@ def mk_refsys(g, base):
 def mk_spine_importer(g, cls):
     # import_listener / error_listener of the outer importer are never read by the non-kern import_token bodies
     return g.new(cls, {'import_listener': None, 'error_listener': None}, ())
+
+
+from pyvc.ghost import conj, disj, implies
+from kernpy.core.tokens import (TokenCategory, Subtoken, NoteRestToken, ChordToken, CompoundToken, SimpleToken, ErrorToken, HeaderToken,
+                                BoundingBoxToken, MHXMToken, BarToken, ClefToken, SpineOperationToken, MetacommentToken, FieldCommentToken)
+
+
+def mk_subtoken(e, cats, corpus):
+    enc = e.str_sym('encoding', corpus)
+    cat = e.enum_in('category', TokenCategory, cats)
+    e.assume(len(enc) > 0)
+    return e.new(Subtoken, {'encoding': enc, 'category': cat}, (enc, cat))
+
+
+def pd_pair_ok(a, b):
+    # a rest has duration marks and the rest sign only: no pitch letters, no accidental next to a rest sign
+    return conj(implies(a.category == TokenCategory.REST, disj(b.category == TokenCategory.DURATION, b.category == TokenCategory.REST)),
+                implies(b.category == TokenCategory.REST, disj(a.category == TokenCategory.DURATION, a.category == TokenCategory.REST)))
+
+
+def mk_note(g, name='tok'):
+    from contracts.spec_tokens import PD_CATS, PD_CORPUS, DEC_CORPUS
+    pd = g.seq(name + '.pd', lambda e: mk_subtoken(e, PD_CATS, PD_CORPUS), None, pd_pair_ok)
+    dec = g.seq(name + '.dec', lambda e: mk_subtoken(e, [TokenCategory.DECORATION], DEC_CORPUS))
+    g.assume(len(pd) > 0)
+    enc = g.str_sym(name + '.encoding', ['4c', '8dd#L'])
+    return g.new(NoteRestToken, {'encoding': enc, 'category': TokenCategory.NOTE_REST, 'hidden': False,
+                                 'pitch_duration_subtokens': pd, 'decoration_subtokens': dec}, (enc, pd, dec))
+
+
+SIMPLE_CLASSES = ['SimpleToken', 'ErrorToken', 'HeaderToken', 'BarToken', 'ClefToken', 'SpineOperationToken', 'MetacommentToken',
+                  'FieldCommentToken', 'BoundingBoxToken', 'MHXMToken']
+NON_NOTE_CORPUS = ['*clefG2', '=', '=:|!', '.', '*', 'Hello', 'col·lec', 'a@b', 'la la', 'pp', '!x', '**kern', '*^', '*-', 'Z z']
+
+
+def mk_simple_like(g, cls_name, name='tok'):
+    """a token whose export is its encoding: every class that inherits SimpleToken.export or repeats it"""
+    enc = g.str_sym(name + '.encoding', NON_NOTE_CORPUS)
+    g.assume(len(enc) > 0)
+    if cls_name == 'SimpleToken':
+        cat = g.enum(name + '.category', TokenCategory)
+        return g.new(SimpleToken, {'encoding': enc, 'category': cat, 'hidden': False}, (enc, cat))
+    if cls_name == 'ErrorToken':
+        return g.new(ErrorToken, {'encoding': enc, 'category': TokenCategory.ERROR, 'hidden': False, 'error': 'e', 'line': 1}, (enc, 1, 'e'))
+    if cls_name == 'HeaderToken':
+        sid = g.int(name + '.spine_id', 0)
+        return g.new(HeaderToken, {'encoding': enc, 'category': TokenCategory.HEADER, 'hidden': False, 'spine_id': sid}, (enc, sid))
+    if cls_name == 'BarToken':
+        hidden = g.bool(name + '.hidden')
+        return with_hidden(g.new(BarToken, {'encoding': enc, 'category': TokenCategory.BARLINES, 'hidden': hidden}, (enc,)), hidden)
+    if cls_name == 'ClefToken':
+        return g.new(ClefToken, {'encoding': enc, 'category': TokenCategory.CLEF, 'hidden': False}, (enc,))
+    if cls_name == 'SpineOperationToken':
+        return g.new(SpineOperationToken, {'encoding': enc, 'category': TokenCategory.SPINE_OPERATION, 'hidden': False,
+                                           'cancelled_at_stage': None}, (enc,))
+    if cls_name == 'MetacommentToken':
+        return g.new(MetacommentToken, {'encoding': enc, 'category': TokenCategory.LINE_COMMENTS, 'hidden': False}, (enc,))
+    if cls_name == 'FieldCommentToken':
+        return g.new(FieldCommentToken, {'encoding': enc, 'category': TokenCategory.FIELD_COMMENTS, 'hidden': False}, (enc,))
+    if cls_name in ('BoundingBoxToken', 'MHXMToken'):
+        # not SimpleToken subclasses; their text never contains a separator or a space ('*xywh:..' by the grammar; MHXMToken is
+        # not produced by any importer)
+        g.assume(conj('@' not in enc, '·' not in enc, ' ' not in enc))
+    if cls_name == 'BoundingBoxToken':
+        return g.new(BoundingBoxToken, {'encoding': enc, 'category': TokenCategory.BOUNDING_BOXES, 'hidden': False,
+                                        'page_number': '1', 'bounding_box': None}, (enc, '1', None))
+    return g.new(MHXMToken, {'encoding': enc, 'category': TokenCategory.MHXM, 'hidden': False}, (enc,))
+
+
+def with_hidden(tok, hidden):
+    if not hasattr(tok, 'fields'):      # concrete object: the constructor does not take `hidden`
+        tok.hidden = hidden
+    return tok
+
+
+def mk_chord(g, name='tok'):
+    notes = g.seq(name + '.notes', lambda e: mk_note(e, 'n'))
+    g.assume(len(notes) > 0)
+    enc = g.str_sym(name + '.encoding', ['4c 4e'])
+    return g.new(ChordToken, {'encoding': enc, 'category': TokenCategory.CHORD, 'hidden': False, 'notes_tokens': notes},
+                 (enc, TokenCategory.CHORD, notes))
+
+
+def mk_compound(g, name='tok'):
+    from contracts.spec_tokens import PD_CORPUS
+    subs = g.seq(name + '.subs', lambda e: mk_subtoken(e, list(TokenCategory), PD_CORPUS))
+    enc = g.str_sym(name + '.encoding', ['abc'])
+    cat = g.enum(name + '.category', TokenCategory)
+    return g.new(CompoundToken, {'encoding': enc, 'category': cat, 'hidden': False, 'subtokens': subs}, (enc, cat, subs))
+
+
+TOKEN_KINDS = SIMPLE_CLASSES + ['note', 'chord', 'compound']
+
+
+def mk_any_token(g, kind, name='tok'):
+    if kind == 'note':
+        return mk_note(g, name)
+    if kind == 'chord':
+        return mk_chord(g, name)
+    if kind == 'compound':
+        return mk_compound(g, name)
+    return mk_simple_like(g, kind, name)
